@@ -647,6 +647,8 @@ def ppf_contract(res, stats_mod, probs, n_phi):
     for p in sel:
         text += 'Goal Rabs (Phi %s - %s) <= 1 / 10 ^ 10.\nProof. phi_cert. Qed.\n' % (common.rlit(float(stats_mod.norm.ppf(p))), common.rlit(p))
     ok, out = common.coq_scratch('C08_phi', text, timeout=600)
+    if not ok:          # killed / starved coqc on an overloaded machine is not a result: one retry
+        ok, out = common.coq_scratch('C08_phi', text, timeout=600)
     res.oblige('contract: |Phi(norm.ppf(p)) - p| <= 1e-10 certified by integral for %d sampled p' % len(sel), ok, out[-1500:])
     res.cov['ppf_probabilities_checked'] = len(ps)
     res.cov['phi_certificates'] = len(sel)
@@ -689,7 +691,12 @@ def run(res):
     if cert_ready:
         try:
             goals, descr, probs = certificates(res, res.rng, n_curves, stats_mod)
-            ok, bad, log = cert.run_certs('C08', REQ, [], goals, extra_tac='wc_prep;', chunk=max(30, -(-len(goals) // common.NCPU)), timeout=1500)
+            chunk = min(150, max(30, -(-len(goals) // common.NCPU)))
+            ok, bad, log = cert.run_certs('C08', REQ, [], goals, extra_tac='wc_prep;', chunk=chunk, timeout=1500)
+            if bad:     # a killed / starved coqc (overloaded machine) must not count as a result: re-check the failed goals once
+                ok2, bad2, log2 = cert.run_certs('C08r', REQ, [], [goals[i] for i in bad], extra_tac='wc_prep;', chunk=chunk, timeout=1500)
+                res.cov['certificate_goals_retried'] = len(bad)
+                ok, bad, log = sorted(set(ok) | {bad[j] for j in ok2}), [bad[j] for j in bad2], log2
             oks = set(ok)
             for i in range(len(goals)):
                 res.oblige('certificate %s' % (descr[i],), i in oks, log if i not in oks else '')
